@@ -14,6 +14,9 @@ use std::net::{IpAddr, SocketAddr};
 use std::sync::{Arc, Condvar, Mutex};
 use std::time::Duration;
 
+pub use crate::dns_parser::verif_wire as wire;
+pub use crate::dns_parser::verif_wire::life;
+
 
 /// One address of a simulated interface (same shape as one `getifaddrs` entry).
 #[derive(Clone, Debug, PartialEq, Eq)]
